@@ -40,7 +40,17 @@ impl ElfSectionsTag {
     /// Get an iterator over the ELF sections.
     #[must_use]
     pub const fn sections(&self) -> ElfSectionIter {
-        let string_section_offset = (self.shndx * self.entry_size) as isize;
+        // All section headers, including the one of the string table, must lie
+        // inside this tag.
+        assert!(
+            self.number_of_sections as u64 * self.entry_size as u64 <= self.sections.len() as u64
+        );
+        assert!(self.number_of_sections == 0 || self.shndx < self.number_of_sections);
+        let string_section_offset = if self.number_of_sections == 0 {
+            0
+        } else {
+            self.shndx as isize * self.entry_size as isize
+        };
         let string_section_ptr =
             unsafe { self.sections.as_ptr().offset(string_section_offset) as *const _ };
         ElfSectionIter {
